@@ -568,6 +568,60 @@ def effective_difference(style, cp, emitted):
     return None
 
 
+def c17_files_case(args):
+    """-oc of a run that names its files: the emitted configuration lists them (file_list) next to the per-file sections; fed back
+    with -c alone it must analyse the same files with the same per-file settings.  The files are named the way tools name them:
+    './x.vhd', 'sub/../x.vhd', 'sub//y.vhd'."""
+    style, seed, sample = args
+    r = random.Random(seed)
+    d = tempfile.mkdtemp(prefix="c17f_")
+    probs = []
+    try:
+        os.mkdir(os.path.join(d, "sub"))
+        spellings = ["./s0.vhd", "sub/../s1.vhd", "sub//s2.vhd", "s3.vhd"]
+        names = []
+        for i, src in enumerate(sample[:4]):
+            sp = spellings[i % len(spellings)]
+            shutil.copyfile(src, os.path.join(d, os.path.normpath(sp)))
+            names.append(sp)
+        if not names:
+            return ((style, seed), [])
+        # a rule that reports on the first file is switched off for that file only
+        js = os.path.join(d, "probe.json")
+        p0 = cli((["--style", style] if style else []) + ["-f", names[0], "-ap", "--json", js], d)
+        if "nexpected token" in p0.stdout + p0.stderr or not os.path.exists(js):
+            return ((style, seed), [])
+        fl = json.load(open(js)).get("files", [])
+        rules = sorted({v["rule"] for v in fl[0].get("violations", [])}) if fl else []
+        if not rules:
+            return ((style, seed), [])
+        rid = r.choice(rules)
+        cfg = {"file_rules": [{names[0]: {"rule": {rid: {"disable": True}}}}]}
+        cp = os.path.join(d, "c.json")
+        json.dump(cfg, open(cp, "w"))
+        sa = (["--style", style] if style else []) + ["-c", cp]
+        o1 = os.path.join(d, "o1.json")
+        p = cli(sa + ["-f"] + names + ["-oc", o1], d)
+        if not os.path.exists(o1):
+            return ((style, seed), ["-oc with files failed: rc=%d %s" % (p.returncode, (p.stdout + p.stderr)[-160:])])
+        j1, j2 = os.path.join(d, "j1.json"), os.path.join(d, "j2.json")
+        p1 = cli(sa + ["-f"] + names + ["-ap", "-p", "1", "--json", j1], d)
+        p2 = cli(["-c", o1, "-ap", "-p", "1", "--json", j2], d)
+        if "Traceback" in p2.stderr or not os.path.exists(j2):
+            return ((style, seed), ["run under the emitted configuration (files from its file_list) crashes or writes no report: %s" % (p2.stderr.strip().split("\n")[-1][:120])])
+        a = [sorted((v["rule"], v["linenumber"]) for v in x["violations"]) for x in json.load(open(j1))["files"]]
+        b = [sorted((v["rule"], v["linenumber"]) for v in x["violations"]) for x in json.load(open(j2))["files"]]
+        if a != b or p1.returncode != p2.returncode:
+            na = sum(1 for x in (a[0] if a else []) if x[0] == rid)
+            nb = sum(1 for x in (b[0] if b else []) if x[0] == rid)
+            probs.append("files named %r with a file_rules entry for the first: violations differ under the emitted configuration (%s reported %d vs %d times for it; %d vs %d files; exit %d vs %d)" % (names, rid, na, nb, len(a), len(b), p1.returncode, p2.returncode))
+        return ((style, seed), probs)
+    except Exception as e:  # noqa
+        return ((style, seed), ["scenario raised %s: %s" % (type(e).__name__, e)])
+    finally:
+        shutil.rmtree(d, ignore_errors=True)
+
+
 def c17_case(args):
     style, seed, sample = args
     r = random.Random(seed)
